@@ -99,7 +99,7 @@ func c03(args []string) {
 	c.Assume("cleanup = removing every _scipipe_tmp* directory and *.fifo below the working directory (what the library's error message asks for)", "audit-only leftovers (x.audit.json without x) are not temp directories and stay")
 	rng := c.Rand("c03")
 	var tcs []topoCase
-	for _, k := range []string{"chain", "diamond", "twoout", "params", "extra", "concat", "dirout"} {
+	for _, k := range []string{"chain", "diamond", "twoout", "params", "extra", "concat", "dirout", "tagzip"} {
 		for _, sh := range []gen.PathShape{gen.ShapePlain, gen.ShapeNested, gen.ShapeParent} {
 			for _, g := range []bool{false, true} {
 				if !c.Thorough() && sh == gen.ShapeParent && g {
